@@ -259,8 +259,9 @@ def run_special(arg):
                     viols.append((f"C08:affix:{name}", f"[{cfgname}] Species({name!r}): (element_count, A, charge) = {got}, expected {(ec, A, 0)}", {"config": cfgname, "name": name}))
         # rejection: one foreign character inserted at every position of a valid 2-token name
         syms = cfg["symbols"]
-        foreign = ["x", "z", "q", "?", ".", "!", "_"]
+        foreign = ["x", "z", "q", "?", ".", "!", "_", " "]
         bases = [a + b for a, b in itertools.product(syms[:6], repeat=2)] + [a + "2" + b for a, b in itertools.product(syms[:4], repeat=2)]
+        bases += [a + "12" + b for a, b in itertools.product(syms[:3], repeat=2)] + [a + "10" for a in syms[:4]]  # a foreign character inside a two-digit count
         for base in bases:
             for ch in foreign:
                 for pos in range(len(base) + 1):
@@ -271,6 +272,19 @@ def run_special(arg):
                     except Exception:
                         continue
                     viols.append((f"C08:foreign-accepted:{cfgname}:{ch}:{'start' if pos == 0 else 'end' if pos == len(base) else 'middle'}", f"[{cfgname}] Species({name!r}) is accepted (element_count={dict(sp.element_count)}) although {ch!r} belongs to no symbol", {"config": cfgname, "name": name}))
+        # a charge sign is only legal at the end of the name: sign followed by a count must not be read as a count
+        for a in syms[:6]:
+            for sign in ("+", "-"):
+                for tail in ("2", "12", "2" + syms[0], "1" + syms[1] + "2"):
+                    name = a + sign + tail
+                    n += 1
+                    try:
+                        sp = Species(name, **kw)
+                    except Exception:
+                        continue
+                    # accepted: then it must at least not have swallowed the sign into a count
+                    if sp.charge == 0:
+                        viols.append((f"C08:sign-inside-name-misread:{cfgname}:{sign}", f"[{cfgname}] Species({name!r}) is read as element_count={dict(sp.element_count)} charge={sp.charge}: a charge sign in front of a count was taken for part of the count", {"config": cfgname, "name": name}))
     return cfgname, n, viols
 
 
